@@ -776,7 +776,17 @@ def op_lose_sidecar(st, o):
 def op_copy(st, o):
     rel, to = o["path"], o["to"]
     pm = st.paths.get(rel)
-    if pm is None or to in st.paths or st.fs.exists(to) or st.fs.exists(_sidecar(to)):
+    if pm is None:
+        return "skipped"
+    if o.get("over"):
+        # another program replaces an existing file (cp / mv over it): the path now holds the
+        # other file's content; nothing the package remembers about the old file applies any more
+        old = st.paths.get(to)
+        if old is None or to == rel or old.fmt != pm.fmt:
+            return "skipped"
+        st.fs.delete(_sidecar(to))
+        st.stats.probe("file_replaced_behind_the_package")
+    elif to in st.paths or st.fs.exists(to) or st.fs.exists(_sidecar(to)):
         return "skipped"
     st.fs.copy(rel, to)
     npm = PathM(pm.fmt, pm.rep, pm.opts, pm.fs, pm.subs, pm.layout, pm.foreign)
@@ -788,8 +798,10 @@ def op_copy(st, o):
             npm.subs = []
             if pm.subs:
                 st.stats.fault("lost_sidecar")
+    if o.get("over"):
+        npm.n_writes = st.paths[to].n_writes + 1
     st.paths[to] = npm
-    return "copied"
+    return "replaced" if o.get("over") else "copied"
 
 
 @op("delete")
@@ -829,7 +841,13 @@ def op_foreign_write(st, o):
         layout = peers.write_foreign_ovf(st.fs.path(rel), d, pmin, pmax, mm.n, arr, labels=o.get("labels"), unit=o.get("unit") or "A/m", meshunit=o.get("meshunit", "m"))
         pm = PathM("ovf", d["rep"], {}, fsh, [], layout, foreign=d)
     elif kind == "hdf5-legacy":
-        peers.write_legacy_hdf5(st.fs.path(rel), pmin, pmax, mm.n, arr)
+        # the old writer stored the two corners as the user had given them: either order per axis
+        sw = o.get("swap") or [False, False, False]
+        p1 = [b if w else a for a, b, w in zip(pmin, pmax, sw)]
+        p2 = [a if w else b for a, b, w in zip(pmin, pmax, sw)]
+        if any(sw):
+            st.stats.probe("legacy_unsorted_corners")
+        peers.write_legacy_hdf5(st.fs.path(rel), p1, p2, mm.n, arr)
         pm = PathM("hdf5", None, {}, fsh, [], None, foreign=o["dialect"])
     elif kind == "vtk-legacy":
         peers.write_legacy_vtk(st.fs.path(rel), pmin, pmax, mm.n, arr)
